@@ -108,7 +108,7 @@ enum { CL_SETOUT_WITH_REQ, CL_ANSWER_AFTER_REPLUMB, CL_DROP_ACROSS_QUEUE, CL_NO_
        CL_STALE_AND_LIVE, CL_REGISTER_MID_CHAIN, CL_BURST,
        CL_OWN_UCLOCK, CL_OWN_UREF_MGR, CL_OWN_FLOW_FORMAT, CL_OWN_UBUF_MGR_CHAINED, CL_OWN_LODGED_AT_TAIL, CL_OWN_THROWN, CL_OWN_SETOUT, CL_OWN_WITHDRAWN_AT_DEATH,
        CL_OWN_REISSUED, CL_OWN_ACROSS_QUEUE, CL_OWN_TAIL_ANSWER, CL_DEMAND_THROWS_AGAIN, CL_VSRC_TIMER, CL_HBIN_DROP_WITH_REQ, CL_HBIN_BUILD_WITH_REQ,
-       CL_HBIN_REPLACE_WITH_REQ, CL_HBIN_UNREG_NO_INNER, CL_HBIN_REG_NO_INNER, CL_BIN_OUTPUT_REQUEST, CL_SVC_SET, CL_SVC_NEW_OBJECT_ANSWERS, CL_SVC_OFF_THEN_UNANSWERED };
+       CL_HBIN_REPLACE_WITH_REQ, CL_HBIN_UNREG_NO_INNER, CL_HBIN_REG_NO_INNER, CL_BIN_OUTPUT_REQUEST, CL_SVC_SET, CL_SVC_NEW_OBJECT_ANSWERS, CL_SVC_OFF_THEN_UNANSWERED, CL_ANSWER_AGAIN };
 static const char *const class_names[] = {
     "set_output_with_requests_registered", "answer_after_replumbing", "provide_after_unregister_across_queue_dropped", "no_provider_provide_request_unhandled",
     "provide_request_answered_by_probe", "deferred_answer_from_tail", "repeated_answer_same_request",
@@ -120,7 +120,7 @@ static const char *const class_names[] = {
     "own_request_lodged_at_tail", "own_request_thrown_on_own_probe", "set_output_with_own_request_registered", "own_request_withdrawn_when_pipe_dies",
     "own_request_re_required", "own_request_answer_crossed_queue", "own_request_answered_from_tail", "demand_throws_after_require", "void_source_timer_started",
     "hbin_inner_dropped_with_requests", "hbin_inner_built_after_drop_with_requests", "hbin_inner_replaced_with_requests", "hbin_unregister_while_no_inner", "hbin_register_while_no_inner",
-    "bin_output_request_registered", "service_probe_object_set", "answer_by_replaced_service_object", "service_probe_switched_off_then_unanswered", NULL };
+    "bin_output_request_registered", "service_probe_object_set", "answer_by_replaced_service_object", "service_probe_switched_off_then_unanswered", "ubuf_mgr_answered_again_with_the_answer_before_last", NULL };
 #define CLS(x) ((uint64_t)1 << (x))
 
 /* ---------------------------------------------------------------- structures */
@@ -163,7 +163,7 @@ struct slot {
     unsigned ncb;
 };
 
-struct rt { struct urequest *ptr; uint8_t type; int rid; uint32_t gen; int bslot, bq; int nprov; };   /* request lodged at a real tail */
+struct rt { struct urequest *ptr; uint8_t type; int rid; uint32_t gen; int bslot, bq; int nprov; int last_id[2]; };   /* request lodged at a real tail */
 struct tail {
     struct upipe *upipe; int sink; int probe; int policy; bool held;
     int nrt; struct rt rt[MAXENT];
@@ -1385,8 +1385,13 @@ static void op_provide(struct ctx *c)
     if (t->policy != PFX_REQ_HOLD || t->nrt == 0 || !t->held) return;
     struct rt *x = &t->rt[(a >> 1) % t->nrt];
     struct urequest *X = x->ptr;
-    int id = new_answer(c, X->type);
+    /* a ubuf manager request may be answered again with an answer it got before -- the same manager with the flow format of the
+     * answer before last: the helpers compare what is provided with what they hold, and must take what differs from it */
+    int id;
+    if (X->type == UREQUEST_UBUF_MGR && (a & 0x80) && x->nprov >= 2) { id = x->last_id[1]; c->cls |= CLS(CL_ANSWER_AGAIN); }
+    else id = new_answer(c, X->type);
     if (id < 0) return;
+    x->last_id[1] = x->last_id[0]; x->last_id[0] = id;
     /* candidates: registered upstream requests this lodged request may stand for */
     struct expcb item; memset(&item, 0, sizeof item);
     item.ans = id; item.tail = ti; item.ptr = X;
